@@ -639,6 +639,10 @@ func RunCycle(s *Store, cfg *Config, sc *CycleScript, idx int, opt *Options) *Cy
 			c.Run(runStop)
 			time.Sleep(3 * time.Millisecond)
 			c.WaitForCacheSync(runStop)
+			if s.Persistent && !waitWatchesEstablished(s) {
+				rec.Starved, rec.NotCaughtUp, rec.NotCaughtUpWhy = true, true, "watches-not-established"
+				return
+			}
 		}
 		if !waitDRASynced(c, s, warm) {
 			rec.Starved, rec.NotCaughtUp, rec.NotCaughtUpWhy = true, true, "dra-claim-tracker"
